@@ -120,6 +120,8 @@ class ListTrash:
             contents = self.content_reader.contents_of(trashinfo_path)
         except IOError as e:
             yield Error(str(e))
+        except UnicodeDecodeError as e:
+            yield Error("%s: %s" % (trashinfo_path, e))
         else:
             try:
                 relative_location = parse_path(contents)
